@@ -6,7 +6,12 @@ Two kinds of cases.
  "control":  [[field name, value], ...]   value = first line ["\\n" + continuation line]...; every
                                           continuation line starts with one blank and has text
  "scripts":  {"postinst": latin-1 str, ...}        any subset of the five maintainer scripts
- "files":    [[relative name, latin-1 data], ...]  data files; stored as ./name plus directories
+ "files":    [[relative name, latin-1 data], ...]  data files; stored as ./name plus directories.
+                                          A name (and each directory in it) may contain and END in
+                                          white space - blank, tab, NBSP, U+3000 - and a directory or
+                                          file below the top level may start with it; the name as a
+                                          whole may not (an md5sums line cannot express that), nor
+                                          contain CR/LF/NUL
  "tarfmt":   "gnu" | "pax" | "ustar"
  "variants": [[control compression, data compression], ...]   each of "", gz, bz2, xz, lzma
  "binary_pos": 0 | 1 | 2      debian-binary first / between the parts / last
@@ -17,10 +22,25 @@ Two kinds of cases.
 }
    The md5sums file always lists every data file with its real md5.
 
+   Every reader is put through three rounds.  (1) All answers are compared with what was packed.
+   (2) The mappings the reader handed out in round 1 (control fields from both routes, both
+   scripts dicts, the three md5sum maps) are modified in place - every value overwritten, one
+   entry deleted, one added - and the reader is asked for them again.  (3) With the reader still
+   open, a reader for a different fixed package is opened (same open mode), one archive per kind
+   of defect (no data part, no control part, no debian-binary, two control candidates, two data
+   candidates) is offered and must be rejected, and the other reader is closed; after each of
+   these steps the reader is asked again for its summary (version, control fields, scripts,
+   md5sums), its control file and its first and last data file.  In addition a "bystander"
+   reader for a third fixed package is opened and questioned before the case's first archive is
+   touched, stays open during the whole case and is questioned again after every archive of the
+   case was read and closed - or rejected.
+
 {"kind": "members", "names": [ar member names, distinct], "open": ...}
    An archive with exactly these members (valid contents for every recognised name).  It is a
    well-formed package iff it has debian-binary, exactly one control candidate and exactly one data
-   candidate; otherwise DebFile() must raise DebError.
+   candidate; otherwise DebFile() must raise DebError.  The bystander reader brackets the attempt
+   (so every defective set is also "a defective archive attempted while another reader is open");
+   an accepted set goes through the three rounds above.
 """
 import hashlib
 import io
@@ -39,20 +59,36 @@ from debian.debfile import DebFile, DebError
 ID = "C07"
 LEVEL = "exploration"
 RULE = ("package cases are (control fields, subset of maintainer scripts, 0..5 data files with binary "
-        "content and names of 1..3 components with blanks/non-ASCII, tar format, list of (control, data) "
+        "content and names of 1..3 components with blanks/tabs/non-ASCII, a third of the components ending "
+        "in white space (blank, tab, NBSP, U+3000) and some lower ones starting with a blank, tar format, "
+        "list of (control, data) "
         "compression pairs, position of debian-binary, extra member, open mode); every pair is built "
         "and read back: control fields, scripts, md5sums (str and bytes keys), and for every file "
-        "and directory the 'name', './name', '/name' spellings of has_file/in/get_content/get_file/[]. "
+        "and directory the 'name', './name', '/name' spellings of has_file/in/get_content/get_file/[]; "
+        "absent names include each of the first two names with a blank or tab appended and stripped of "
+        "outer white space. Every reader is then asked again after the mappings it returned were modified "
+        "in place, and again while/after a reader for a different fixed package is opened and closed and "
+        "five kinds of defective archive are rejected; a bystander reader of a third package, opened "
+        "before the case's archives, must answer unchanged after each of them (also after each rejected "
+        "member set). "
         "member-set cases enumerate every subset of the 5 control and 5 data candidate names with and "
         "without debian-binary (2048 sets x 2 orders x 2 open modes): DebError iff a part is missing "
         "or ambiguous. Thorough adds packages built by dpkg-deb. Non-trivial = a package with a data "
-        "file whose name has a blank or non-ASCII character, or with two different compressions in "
+        "file whose name has a blank, a non-ASCII character or white space at the end of a component, or with two different compressions in "
         "one pair; or a defective member set; distinct = distinct canonical JSON of the case")
 ASSUMPTIONS = [
     "harness writers for ar/tar/compression (vcheck/gen/c06_archives.py; tarfile, gzip, bz2, lzma of the standard library)",
     "control values are generated in the parser's normal form (no blanks at line ends, continuation "
     "lines start with one blank, printable characters), so 'same control fields' is plain equality",
     "two members with the *same* name are not generated in member-set cases (the statement's 'more than one candidate' is read as distinct candidate names)",
+    "file names: white space is generated inside and at the end of every path component and in front of "
+    "lower components; a name whose very first character is white space, or that contains CR, LF or NUL, is "
+    "outside the domain (one md5sums line '<md5>  <name>' cannot carry it)",
+    "modifying a returned mapping = item assignment, del and insertion on the Deb822 / dict objects "
+    "returned by debcontrol(), scripts() and md5sums(); file objects and the TarFile from tgz() are not tampered with",
+    "the second reader, the bystander reader and the parts of the rejected archives are three small fixed "
+    "packages with distinctive content (all contain usr/share/doc/common with different bytes); the "
+    "case's own package is the arbitrary one",
     "queries for absent names: has_file must be False in all spellings; content queries must fail "
     "the same way (KeyError or DebError) in all spellings - which of the two is not prescribed",
     "dpkg-deb --build as second writer when /usr/bin/dpkg-deb exists (thorough tier)",
@@ -60,9 +96,15 @@ ASSUMPTIONS = [
 ]
 EXHAUSTIVE = {
     "quick": "all 2048 subsets of {debian-binary} + 5 control candidates + 5 data candidates, x 2 member orders x 2 open modes; "
-             "one fixed package x 5x5 compressions x 3 tar formats x 3 debian-binary positions",
+             "one fixed package (7 data files, among them 'etc/conf ' next to 'etc/conf', a name with tabs and '.config/.rc') "
+             "x 5x5 compressions x 3 tar formats x 3 debian-binary positions; "
+             "every one of these cases with a bystander reader open, and every accepted archive with the "
+             "modify-and-ask-again round and the second-reader / 5 rejected archives round",
     "thorough": "all 2048 subsets of {debian-binary} + 5 control candidates + 5 data candidates, x 2 member orders x 2 open modes; "
-                "one fixed package x 5x5 compressions x 3 tar formats x 3 debian-binary positions x 2 open modes",
+                "one fixed package (7 data files, among them 'etc/conf ' next to 'etc/conf', a name with tabs and '.config/.rc') "
+                "x 5x5 compressions x 3 tar formats x 3 debian-binary positions x 2 open modes; "
+                "every one of these cases with a bystander reader open, and every accepted archive with the "
+                "modify-and-ask-again round and the second-reader / 5 rejected archives round",
 }
 BUDGET = {"quick": 200, "thorough": 1500}
 
@@ -94,11 +136,17 @@ def _valid_fieldname(n):
             and all("!" <= c <= "~" and c != ":" for c in n))
 
 
+NAME_BLANKS = " \t\xa0\u3000\x0b\x0c"     # white space a file name may contain (anywhere but in front)
+
+
 def _valid_filename(n):
-    if not isinstance(n, str) or not n or "\n" in n or "\x00" in n or "\r" in n:
+    """A relative path that one md5sums line can carry: no line terminator or NUL, and no white
+    space in front (``<md5>  <name>`` cannot tell it from the separator).  White space inside and
+    at the END of the name or of a directory - blank, tab, VT, FF, NBSP, U+3000 - is allowed."""
+    if not isinstance(n, str) or not n or "\n" in n or "\x00" in n or "\r" in n or n[0].isspace():
         return False
     for comp in n.split("/"):
-        if comp in ("", ".", "..") or comp != comp.strip() or not comp.isprintable():
+        if comp in ("", ".", "..") or not all(c.isprintable() or c in NAME_BLANKS for c in comp):
             return False
     return True
 
@@ -256,7 +304,7 @@ def _check_part_files(part, what, files, dirs, labels):
     present = set(n for n, _ in files) | set(dirs)
     absent = ["no-such-file", "no such/file"]
     for name, _ in files[:2]:
-        absent += [name + "x", name[:-1], name + "/x", name.swapcase()]
+        absent += [name + "x", name[:-1], name + "/x", name.swapcase(), name + " ", name + "\t", name.strip()]
     for name in absent:
         if name in present or not _valid_filename(name):
             continue
@@ -273,10 +321,13 @@ def _check_part_files(part, what, files, dirs, labels):
         labels.add("absent-name-queried")
 
 
-def _check_package(deb, case, what, labels):
+def _check_summary(deb, case, what):
+    """version, control fields, scripts and the md5sum map, each by every route the reader offers.
+    Returns the mutable objects the reader handed out: [(object, a new key, a new value), ...]."""
     ctrl = case["control"]
     scripts = dict((k, s2b(v)) for k, v in case["scripts"].items())
     files = [(n, s2b(d)) for n, d in case["files"]]
+    handed = []
     if deb.version != b"2.0":
         raise Violation("version", "%s: version = %r" % (what, deb.version))
     exp_ctrl = dict((k, v) for k, v in ctrl)
@@ -287,20 +338,67 @@ def _check_package(deb, case, what, labels):
             raise Violation("control-fields", "%s: %s() = %s, packed %s" % (what, how, short(got_d, 200), short(exp_ctrl, 200)))
         if [k for k in got.keys()] != [k for k, _ in ctrl]:
             raise Violation("control-fields", "%s: field order %s, packed %s" % (what, short(list(got.keys())), short([k for k, _ in ctrl])))
+        handed.append((got, "X-Added-By-The-Caller", "yes"))
     for how, fn in (("DebFile.scripts", deb.scripts), ("control.scripts", deb.control.scripts)):
         got = fn()
         if got != scripts or not all(type(v) is bytes for v in got.values()):
             raise Violation("scripts", "%s: %s() = %s, packed %s" % (what, how, short(got, 200), short(scripts, 200)))
+        handed.append((got, "added-by-the-caller", b"#!/bin/false\n"))
     exp_md5 = dict((n, hashlib.md5(d).hexdigest()) for n, d in files)
     got = deb.md5sums(encoding="utf-8")
     if got != exp_md5:
         raise Violation("md5sums", "%s: md5sums(encoding='utf-8') = %s, packed %s" % (what, short(got, 200), short(exp_md5, 200)))
+    handed.append((got, "added/by the caller", "0" * 32))
     got = deb.md5sums()
     if got != dict((n.encode("utf-8"), h) for n, h in exp_md5.items()):
         raise Violation("md5sums", "%s: md5sums() = %s, packed %s" % (what, short(got, 200), short(exp_md5, 200)))
+    handed.append((got, b"added/by the caller", "0" * 32))
     got = deb.control.md5sums(encoding="utf-8")
     if got != exp_md5:
         raise Violation("md5sums", "%s: control.md5sums(encoding='utf-8') = %s" % (what, short(got, 200)))
+    handed.append((got, "added/by the caller", "0" * 32))
+    return handed
+
+
+def _scribble(handed):
+    """What a caller may do with a mapping it was given: overwrite every value, drop the first
+    entry, add one.  (Deb822, dict of scripts, dicts of md5sums - all documented as mappings.)"""
+    for obj, newkey, newvalue in handed:
+        keys = list(obj.keys())
+        for k in keys:
+            obj[k] = newvalue
+        if keys:
+            del obj[keys[0]]
+        obj[newkey] = newvalue
+
+
+def _check_brief(deb, case, what):
+    """The summary plus the first and the last data file and the control file: enough to tell this
+    package's answers from any other package's."""
+    _check_summary(deb, case, what)
+    if deb.control.get_content("control") != control_text(case["control"]):
+        raise Violation("file-content", "%s: get_content('control') is not the packed control file" % what)
+    for n, d in [(n, s2b(d)) for n, d in case["files"][:1] + case["files"][1:][-1:]]:
+        if deb.data.has_file(n) is not True or (("/" + n) in deb.data) is not True:
+            raise Violation("membership", "%s: has_file(%r)/in is not True for a packed file" % (what, n))
+        got = deb.data.get_content("./" + n)
+        if got != d or type(got) is not bytes:
+            raise Violation("file-content", "%s: get_content(%r) gave %s, packed %s" % (what, "./" + n, short(got, 80), short(d, 80)))
+
+
+def _later(stage, fn, *args):
+    """Run a repeated check; a failure keeps its kind but is filed under the stage that provoked it."""
+    try:
+        return fn(*args)
+    except Violation as v:
+        raise Violation(stage + ":" + v.sig, v.msg)
+
+
+def _check_package(deb, case, what, labels):
+    ctrl = case["control"]
+    scripts = dict((k, s2b(v)) for k, v in case["scripts"].items())
+    files = [(n, s2b(d)) for n, d in case["files"]]
+    handed = _check_summary(deb, case, what)
     # control part: the same three spellings
     cfiles = [("control", control_text(ctrl)), ("md5sums", md5sums_text(files))]
     cfiles += sorted(scripts.items())
@@ -324,6 +422,113 @@ def _check_package(deb, case, what, labels):
     text = deb.control.get_content("control", encoding="utf-8")
     if text != control_text(ctrl).decode("utf-8"):
         raise Violation("file-content", "%s: get_content('control', encoding='utf-8') = %s" % (what, short(text, 120)))
+    # the answers belong to the caller: whatever it does to the mappings it was given, the reader
+    # must go on reporting what was packed
+    _scribble(handed)
+    _later("asked-again-after-the-answers-were-modified", _check_summary, deb, case,
+           what + " [second round; the mappings returned in the first round were modified in place]")
+    labels.add("answers-modified-and-asked-again")
+
+
+# ------------------------------------------------------------------------------------------
+# oracle: other readers and rejected archives must not disturb a live reader
+
+
+def _small_package(tag, cc, dc):
+    """A small fixed package unlike any other; all of them share the path usr/share/doc/common."""
+    return {"kind": "package",
+            "control": [["Package", tag], ["Version", "1.0-" + tag], ["Description", "the %s package\n ." % tag]],
+            "scripts": {"prerm": "#!/bin/sh\n# %s\n" % tag},
+            "files": [["usr/share/doc/common", "content of %s\n" % tag], ["usr/lib/%s/only here" % tag, tag]],
+            "tarfmt": "gnu", "variants": [[cc, dc]]}
+
+
+_BYSTANDER = _small_package("bystander", "gz", "xz")
+_COMPANION = _small_package("companion", "", "bz2")
+_REJECTED = _small_package("rejected", "gz", "gz")
+_small_cache = {}
+
+
+def _small_blobs(pkg):
+    key = pkg["control"][0][1]
+    if key not in _small_cache:
+        files = [(n, s2b(d)) for n, d in pkg["files"]]
+        scripts = sorted((k, s2b(v)) for k, v in pkg["scripts"].items())
+        cc, dc = pkg["variants"][0]
+        ctar = A.control_tar([("control", control_text(pkg["control"])), ("md5sums", md5sums_text(files))] + scripts)
+        _small_cache[key] = (A.compress(ctar, cc), cc, A.compress(A.data_tar(files), dc), dc)
+    return _small_cache[key]
+
+
+def _small_raw(pkg):
+    cblob, cc, dblob, dc = _small_blobs(pkg)
+    return deb_bytes(cblob, cc, dblob, dc)
+
+
+def _defective_archives():
+    """One archive per defect the statement names, with valid (and distinctive) parts."""
+    cblob, cc, dblob, dc = _small_blobs(_REJECTED)
+    info = dict(name=b"debian-binary", data=b"2.0\n")
+    ctrl = dict(name=A.part_name("control.tar", cc), data=cblob)
+    data = dict(name=A.part_name("data.tar", dc), data=dblob)
+    other = _small_blobs(_COMPANION)
+    ctrl2 = dict(name=A.part_name("control.tar", other[1]), data=other[0])
+    data2 = dict(name=A.part_name("data.tar", other[3]), data=other[2])
+    sets = [("no data part", [info, ctrl]), ("no control part", [info, data]),
+            ("no debian-binary", [ctrl, data]), ("two control candidates", [info, ctrl, ctrl2, data]),
+            ("two data candidates", [info, ctrl, data, data2])]
+    if "defective" not in _small_cache:
+        _small_cache["defective"] = [(why, A.ar_archive(_styled([dict(m) for m in ms]))[0]) for why, ms in sets]
+    return _small_cache["defective"]
+
+
+class _Bystander(object):
+    """A reader for another package that is opened and questioned BEFORE the case's own archives
+    are touched and stays open; ``again()`` questions it once more."""
+
+    def __init__(self):
+        self.deb = DebFile(fileobj=io.BytesIO(_small_raw(_BYSTANDER)))
+        _check_brief(self.deb, _BYSTANDER, "bystander package (opened before the case's own archive)")
+
+    def again(self, after):
+        _later("reader-disturbed-by-another-archive", _check_brief, self.deb, _BYSTANDER,
+               "a reader of another package that was open all the time, questioned again after " + after)
+
+    def close(self):
+        self.deb.close()
+
+
+def _check_neighbours(deb, case, what, labels, op):
+    """With ``deb`` open and already questioned: open a reader for a different package, have
+    every kind of defective archive rejected, close the other reader - ``deb`` must go on
+    answering for its own package after each step, and the newcomer for its own."""
+    other = op.open(_small_raw(_COMPANION))
+    try:
+        _later("reader-disturbed-by-another-archive", _check_brief, deb, case,
+               what + " [asked again after a reader for a different package was opened]")
+        _check_brief(other, _COMPANION, "a second package opened while the reader of %s is open" % what)
+        for why, raw in _defective_archives():
+            try:
+                bad = op.open(raw)
+            except DebError:
+                pass
+            else:
+                bad.close()
+                raise Violation("defect-accepted", "an archive with %s was accepted" % why)
+            _later("reader-disturbed-by-another-archive", _check_brief, deb, case,
+                   what + " [asked again after an archive with %s was rejected]" % why)
+        _later("reader-disturbed-by-another-archive", _check_brief, other, _COMPANION,
+               "the second open package [asked again after the defective archives were rejected]")
+    finally:
+        other.close()
+    _later("reader-disturbed-by-another-archive", _check_brief, deb, case,
+           what + " [asked again after the reader of a different package was closed]")
+    labels.add("second-reader-and-rejected-archives-while-open")
+
+
+def _check_reader(deb, case, what, labels, op):
+    _check_package(deb, case, what, labels)
+    _check_neighbours(deb, case, what, labels, op)
 
 
 def _dpkg_control_ok(ctrl):
@@ -355,9 +560,15 @@ def check_package(case):
         labels.add("control-non-ascii")
     if any(d == b"" for _, d in files):
         labels.add("empty-data-file")
+    if any(c[-1].isspace() for n, _ in files for c in n.split("/")):
+        labels.add("filename-or-directory-ends-in-white-space")
+        fancy = True
+    if any("\t" in n for n, _ in files):
+        labels.add("filename-with-tab")
     writer = case.get("writer", "harness")
     op = _Opened(case["open"])
     mixed = False
+    bystander = _Bystander()
     try:
         if writer.startswith("dpkg-deb:"):
             z = writer.split(":")[1]
@@ -373,7 +584,8 @@ def check_package(case):
                 return (False, sorted(labels))
             labels.add("dpkg-deb:built-Z" + z)
             with op.open(raw) as deb:
-                _check_package(deb, case, "dpkg-deb -Z%s" % z, labels)
+                _check_reader(deb, case, "dpkg-deb -Z%s" % z, labels, op)
+            bystander.again("a package built by dpkg-deb was opened, read and closed")
             return (fancy, sorted(labels))
         scripts = sorted((k, s2b(v)) for k, v in case["scripts"].items())
         ctar = A.control_tar([("control", control_text(case["control"])), ("md5sums", md5sums_text(files))] + scripts,
@@ -397,7 +609,8 @@ def check_package(case):
             except DebError as e:
                 raise Violation("valid-rejected", "%s: a well-formed package was rejected: %s" % (what, short(str(e), 200)))
             with deb:                       # context-manager use must close cleanly
-                _check_package(deb, case, what, labels)
+                _check_reader(deb, case, what, labels, op)
+            bystander.again("the package %s was opened, read and closed" % what)
         labels.add("binary-pos:%d" % case.get("binary_pos", 0))
         if case.get("extra"):
             labels.add("extra-member")
@@ -405,6 +618,7 @@ def check_package(case):
             labels.add("mixed-compressions")
         return (fancy or mixed, sorted(labels))
     finally:
+        bystander.close()
         op.cleanup()
 
 
@@ -458,30 +672,32 @@ def check_members(case):
     if not defects:
         labels.add("member-set-well-formed")
     op = _Opened(case["open"])
+    bystander = _Bystander()
     try:
         try:
             deb = op.open(raw)
         except DebError as e:
             if not defects:
                 raise Violation("valid-rejected", "members %s form a package, DebFile raised DebError: %s" % (names, e))
+            bystander.again("the archive with members %s was rejected" % names)
+            labels.add("open-reader-questioned-after-the-rejection")
             return (True, sorted(labels))
         if defects:
             deb.close()
             raise Violation("defect-accepted", "members %s (%s) were accepted" % (names, ", ".join(defects)))
         with deb:
-            _check_package(deb, _FIXED, "members %s" % names, labels)
+            _check_reader(deb, _FIXED, "members %s" % names, labels, op)
+        bystander.again("the archive with members %s was opened, read and closed" % names)
         return (False, sorted(labels))
     finally:
+        bystander.close()
         op.cleanup()
 
 
 def noise(seed, size):
     """``size`` incompressible bytes (so that a compressed part is larger than one read chunk of
     the decompressor), as a latin-1 string; a pure function of (seed, size)."""
-    out, i = [], 0
-    while sum(len(b) for b in out) < size:
-        out.append(hashlib.sha256(b"%d/%d" % (seed, i)).digest())
-        i += 1
+    out = [hashlib.sha256(b"%d/%d" % (seed, i)).digest() for i in range((size + 31) // 32)]
     return b"".join(out)[:size].decode("latin-1")
 
 
@@ -548,7 +764,10 @@ def enum_matrix(modes):
                             c = dict(_FIXED)
                             c.update(tarfmt=fmt, binary_pos=pos, open=mode, variants=[[cc, dc]],
                                      extra=(pos == 1),
-                                     files=_FIXED_FILES + [["été/漢 \U0001d4b3", "data"]])
+                                     files=_FIXED_FILES + [["été/漢 \U0001d4b3", "data"], ["etc/conf ", "name ends in a blank"],
+                                                           ["etc/conf", "the same without the blank"],
+                                                           ["etc/dir\t/ tab\t", "tabs and a blank in front"],
+                                                           [".config/.rc", "names that start with a dot"]])
                             yield c
     return gen
 
@@ -557,7 +776,7 @@ def enum_matrix(modes):
 # Hypothesis generators
 
 TEXT = "abAB019zZ :#,-.;=<>()[]|!~+*?\\éß漢\U0001d4b3"
-NAMECHARS = "abAB01 ._-+~,=()#éß漢\U0001d4b3"
+NAMECHARS = "abAB01 ._-+~,=()#éß漢\U0001d4b3\t"
 
 
 def _clean(s, fallback):
@@ -594,8 +813,14 @@ def control_st(draw):
 comp_st = st.text(alphabet=NAMECHARS, min_size=1, max_size=7).map(
     lambda s: "d" if _clean(s, "f") in (".", "..") else _clean(s, "f"))
 COMP_POOL = ["usr", "bin", "share", "doc", "a b", "été", "漢", "x", ".hidden", "f.txt", "a  b", "A"]
-component_st = st.one_of(st.sampled_from(COMP_POOL), comp_st)
-filename_st = st.lists(component_st, min_size=1, max_size=3).map("/".join)
+plain_component_st = st.one_of(st.sampled_from(COMP_POOL), comp_st)
+# white space at the end of a file or directory name (and, below the top level, in front of it)
+TAILS = [" ", "\t", "  ", " \t", "\xa0", "\u3000"]
+component_st = st.one_of(plain_component_st, plain_component_st,
+                         st.builds(lambda c, t: c + t, plain_component_st, st.sampled_from(TAILS)))
+inner_component_st = st.one_of(component_st, component_st, component_st, component_st.map(lambda c: " " + c))
+filename_st = st.builds(lambda first, rest: "/".join([first] + rest), component_st,
+                        st.lists(inner_component_st, max_size=2))
 content_st = st.one_of(st.binary(max_size=24), st.sampled_from([b"", b"\n", b"#!/bin/sh\nexit 0\n", b"\x00" * 600]))
 latin = lambda b: b.decode("latin-1")
 
